@@ -5,6 +5,8 @@ import (
 	"net/http"
 	"strings"
 
+	"github.com/bolkedebruin/rdpgw/cmd/rdpgw/protocol"
+
 	"verif/internal/tsgu"
 	"verif/shim/vsched"
 )
@@ -89,4 +91,111 @@ func c01DoubleIn(rep *Report) {
 			rep.violate("C01/second-packet-loop-on-one-legacy-tunnel/"+when, fmt.Sprintf("second RDG_IN_DATA with the same connection id %s: %d backend connections, %d success responses (one session gives 1 and 4), second request accepted=%v", when, dials, okResps, in2Accepted), map[string]any{"noreplay": true})
 		}
 	}
+}
+
+// c01ReusePrelude opens a legacy tunnel with the connection id the observed tunnel will use, takes it
+// through the whole authorization sequence (and one data packet), and leaves it open or closed.
+func c01ReusePrelude(end, connID string) func(w *World, h http.Handler, gw *protocol.Gateway) {
+	return func(w *World, h http.Handler, gw *protocol.Gateway) {
+		id := NewIdentity("alice", "10.0.0.1", "10.0.0.1:50000")
+		c, ok := w.OpenTunnel("legacy", h, gw, connID, "10.0.0.1:50000", id, nil)
+		if !ok {
+			return
+		}
+		vsched.WaitIdle()
+		for _, p := range [][]byte{tsgu.Handshake(1, 0, 0, tsgu.ExtAuthPAA), tsgu.TunnelCreate("ok|"+hostA+":3389|10.0.0.1|alice", true), tsgu.TunnelAuth("pc"), tsgu.ChannelCreate(hostA, 3389), tsgu.Data([]byte("first-tunnel"))} {
+			c.SendSegment(p)
+			vsched.WaitIdle()
+		}
+		switch end {
+		case "closed":
+			c.SendSegment(tsgu.CloseChannel())
+			vsched.WaitIdle()
+		case "dropped":
+			c.CloseClient()
+			vsched.WaitIdle()
+		}
+	}
+}
+
+// c01Reuse: a connection that presents the connection id of an earlier legacy tunnel (still open, closed
+// in order, or dropped) is a tunnel of its own: it has to complete the whole sequence itself before
+// anything it sends is relayed or answered with success.
+func c01Reuse(env *Env, rep *Report, alpha []sym, depth int) int {
+	n, distinct := 0, 0
+	na := len(alpha)
+	for _, pre := range []string{"open/conn-1", "closed/conn-1", "dropped/conn-1", "open/conn-0", "closed/conn-0"} {
+		end, preID := strings.Split(pre, "/")[0], strings.Split(pre, "/")[1]
+		for _, kind := range []string{"ws", "legacy"} {
+			if kind == "legacy" && end == "open" && preID == "conn-1" {
+				continue // a second legacy pair on a live legacy tunnel is part (4)
+			}
+			var hists [][]int
+			for d := 1; d <= depth; d++ {
+				tot := 1
+				for i := 0; i < d; i++ {
+					tot *= na
+				}
+				for idx := 0; idx < tot; idx++ {
+					h := make([]int, d)
+					v := idx
+					for i := d - 1; i >= 0; i-- {
+						h[i] = v % na
+						v /= na
+					}
+					hists = append(hists, h)
+				}
+			}
+			good := c01Good(alpha, true)
+			for pos := 0; pos <= len(good); pos++ {
+				for si := 0; si < na; si++ {
+					h := append(append(append([]int{}, good[:pos]...), si), good[pos:]...)
+					hists = append(hists, h)
+				}
+			}
+			for _, h := range hists {
+				n++
+				if !env.mine(n) {
+					continue
+				}
+				distinct++
+				segs := make([]Seg, len(h))
+				for i, x := range h {
+					segs[i] = Seg{Name: alpha[x].Name, Bytes: alpha[x].Bytes}
+				}
+				cfg := c01Cfg(true, false, kind)
+				cfg.Prelude = c01ReusePrelude(end, preID)
+				res := RunSeq(cfg, segs)
+				rep.add("executions", 1)
+				rep.add("transitions", int64(res.StepsRun))
+				if res.Abort != "" {
+					infra("C01 reuse: execution aborted: %s", res.Abort)
+				}
+				var viols []string
+				for _, p := range res.Panics {
+					viols = append(viols, "panic:"+shortFn(panicSite(p)))
+				}
+				if res.Opened {
+					m := &c01Monitor{Token: true, Phase: "INIT"}
+					for i, o := range res.Steps {
+						viols = append(viols, m.step(alpha[h[i]], o)...)
+					}
+				}
+				rep.outcome(fmt.Sprintf("reuse %s/%s opened=%v viols=%d", end, kind, res.Opened, len(viols)))
+				for _, v := range viols {
+					var obs []string
+					for _, o := range res.Steps {
+						obs = append(obs, o.String())
+					}
+					what := "connection-id-of-an-earlier-legacy-tunnel"
+					if preID != "conn-1" {
+						what = "after-an-earlier-tunnel"
+					}
+					rep.violate("C01/"+v+"/"+what+"/"+kind, fmt.Sprintf("earlier legacy tunnel (connection id "+preID+", this one conn-1) left %s; then %s history=%v obs=%v", end, kind, histNames(alpha, h), obs),
+						map[string]any{"noreplay": true})
+				}
+			}
+		}
+	}
+	return distinct
 }
